@@ -104,12 +104,6 @@ theorem arbitrary_by_mode (env : Env) (l : Limits) (r : Rec) (now : Int) (dur : 
   exact ⟨fun hm => by simp [post, hm], fun hm => by simp [post, hm],
     fun hm => post_arbitrary_verdict env l r (now + dur) hm⟩
 
-/-- Pending sub-handlers: the parent is retried with the delay the children ask for (no look-ahead). -/
-theorem children_retry (env : Env) (l : Limits) (r : Rec) (now : Int) (dur : Nat) (d : Option Int)
-    (h : precheck l r now = none) :
-    classify env l r now dur (.childrenRetry d) = retryWith d := by
-  rw [classify_of_precheck_none h]; rfl
-
 /-- The function is not called iff a limit is reached (timeout: runtime ≥ T; retries: stored count ≥ N),
     and then the outcome is a final failure naming the limit, recorded as failure. -/
 theorem limits_refuse (env : Env) (l : Limits) (r : Rec) (now : Int) (dur : Nat) (x : Raised) (t : Int) :
@@ -131,17 +125,29 @@ theorem limits_refuse (env : Env) (l : Limits) (r : Rec) (now : Int) (dur : Nat)
       rw [classify_of_precheck_some hp]
       rcases precheck_some_ne_none hp with rfl | rfl <;> simp [withOutcome]
 
-/-- The record is finished exactly when the outcome was final; success iff final without exception. -/
-theorem final_finished (r : Rec) (t : Int) (o : Outcome) :
-    (withOutcome r t o).finished = o.final ∧
-    ((withOutcome r t o).success = true ↔ (o.final = true ∧ o.exc = .none)) ∧
-    ((withOutcome r t o).failure = true ↔ (o.final = true ∧ o.exc ≠ .none)) := by
-  refine ⟨withOutcome_finished r t o, ?_, ?_⟩ <;> simp [withOutcome]
+/-! ## Whole histories with record continuity: any cycle times, batch positions, restarts between cycles
 
-/-! ## Whole histories: any cycle times, any batch positions, restarts anywhere -/
+  `run` threads the record: every cycle sees what the previous one stored. The code re-reads the
+  record from the event body (`State.from_storage(body=cause.body)`), so this is a GUARD, not a fact:
+  `run` is `runEnv` restricted to cycles with `view = 0 ∧ stored = true` (`run_is_continuous_env`).
+  The property quantifies over crash points and histories; over the unrestricted environment
+  (`runEnv`: stale event bodies, lost patches, a kill between the handler call and the applied patch)
+  the whole-history clauses are FALSE of the code, and the theorems below carry `_partial`:
+
+    full statements (false):  `∀ hist steps, (attempts (runEnv … hist steps)).Pairwise After`
+                              `l.retries = some N → (invocations (runEnv … [] steps)).length ≤ N`
+                              `l.timeout = some T → ∀ a b ∈ invocations (runEnv …), b.time - a.time < T`
+                              `r.finished → attempts (runEnv … (r :: h) steps) = []`
+    exact guard:              every cycle has `view = 0 ∧ stored = true` (= `steps.map Step.lift`)
+    negations by witness:     `kill_mid_exceeds_retries_witness`, `stale_view_breaks_delay_witness`,
+                              `lost_patch_exceeds_timeout_witness`, `stale_view_reruns_finished_witness`
+    what holds in EVERY environment: `env_invocation_within_seen_limits`, `env_gate_respected`
+                              (each invocation is justified by the record version it was shown).
+  Not a defect of kopf: a non-transactional handler call followed by a patch is at-least-once by
+  nature (docs: handlers should be idempotent); the limits are enforced against the stored record. -/
 
 /-- Once finished (success or failure for good) the handler is never executed again. -/
-theorem finished_never_runs (env : Env) (l : Limits) (now : Int) (r : Rec) (steps : List Step)
+theorem finished_never_runs_partial (env : Env) (l : Limits) (now : Int) (r : Rec) (steps : List Step)
     (h : r.finished = true) : attempts (run env l now r steps) = [] :=
   attempts_run_finished env l steps now r h
 
@@ -152,7 +158,7 @@ def After (a b : Attempt) : Prop :=
 
 /-- Never sooner than the requested delay or backoff: EVERY later attempt (not only the next one)
     starts no earlier than the merge of the earlier outcome plus its delay, in every history. -/
-theorem delay_respected (env : Env) (l : Limits) (steps : List Step) :
+theorem delay_respected_partial (env : Env) (l : Limits) (steps : List Step) :
     ∀ (now : Int) (r : Rec), (attempts (run env l now r steps)).Pairwise After := by
   induction steps with
   | nil => intro now r; exact List.Pairwise.nil
@@ -175,12 +181,12 @@ theorem delay_respected (env : Env) (l : Limits) (steps : List Step) :
 
 /-- The same for consecutive attempts, in the property's words:
     `attempt (n+1).time ≥ attempt n .end + delay n` (and `end ≥ time`). -/
-theorem delay_respected_succ (env : Env) (l : Limits) (now : Int) (r : Rec) (steps : List Step)
+theorem delay_respected_succ_partial (env : Env) (l : Limits) (now : Int) (r : Rec) (steps : List Step)
     (n : Nat) (a b : Attempt)
     (ha : (attempts (run env l now r steps))[n]? = some a)
     (hb : (attempts (run env l now r steps))[n + 1]? = some b) :
     a.time ≤ a.endTime ∧ a.endTime ≤ b.time ∧ ∀ d, a.out.delay = some d → a.endTime + d ≤ b.time := by
-  have hp := delay_respected env l steps now r
+  have hp := delay_respected_partial env l steps now r
   obtain ⟨hn, rfl⟩ := List.getElem?_eq_some_iff.1 ha
   obtain ⟨hn1, rfl⟩ := List.getElem?_eq_some_iff.1 hb
   have hab : After _ _ := List.pairwise_iff_getElem.1 hp n (n + 1) hn hn1 (Nat.lt_succ_self n)
@@ -211,10 +217,10 @@ theorem delay_respected_succ (env : Env) (l : Limits) (now : Int) (r : Rec) (ste
   omega
 
 /-- A final outcome (success, ignored error, permanent error, limit) is the last attempt. -/
-theorem final_is_last (env : Env) (l : Limits) (now : Int) (r : Rec) (steps : List Step)
+theorem final_is_last_partial (env : Env) (l : Limits) (now : Int) (r : Rec) (steps : List Step)
     (n : Nat) (a : Attempt) (ha : (attempts (run env l now r steps))[n]? = some a)
     (hf : a.out.final = true) : (attempts (run env l now r steps)).length = n + 1 := by
-  have hp := delay_respected env l steps now r
+  have hp := delay_respected_partial env l steps now r
   obtain ⟨hn, rfl⟩ := List.getElem?_eq_some_iff.1 ha
   apply Nat.le_antisymm _ hn
   apply Nat.le_of_not_lt
@@ -225,7 +231,7 @@ theorem final_is_last (env : Env) (l : Limits) (now : Int) (r : Rec) (steps : Li
 
 /-- With `retries = N` the function is invoked at most `N − (stored count)` more times — over any
     history, restarts included. -/
-theorem retries_bound (env : Env) (l : Limits) (N : Int) (hN : l.retries = some N) (steps : List Step) :
+theorem retries_bound_partial (env : Env) (l : Limits) (N : Int) (hN : l.retries = some N) (steps : List Step) :
     ∀ (now : Int) (r : Rec), (invocations (run env l now r steps)).length ≤ (N - r.retries).toNat := by
   induction steps with
   | nil => intro now r; simp [run, invocations, attempts]
@@ -249,10 +255,10 @@ theorem retries_bound (env : Env) (l : Limits) (N : Int) (hN : l.retries = some 
         · rw [if_neg hi]; omega
 
 /-- From scratch: at most `N` invocations with `retries = N` (none at all for `N ≤ 0`). -/
-theorem retries_bound_scratch (env : Env) (l : Limits) (N : Int) (hN : l.retries = some N)
+theorem retries_bound_scratch_partial (env : Env) (l : Limits) (N : Int) (hN : l.retries = some N)
     (now t0 : Int) (steps : List Step) :
     (invocations (run env l now (fromScratch t0) steps)).length ≤ N.toNat := by
-  have := retries_bound env l N hN steps now (fromScratch t0)
+  have := retries_bound_partial env l N hN steps now (fromScratch t0)
   simpa [fromScratch] using this
 
 /-- The bound is tight: for every `N` there is a history with exactly `N` invocations
@@ -291,7 +297,7 @@ theorem retries_bound_tight (env : Env) (N : Nat) (b : Option Int) (m : Option M
 
 /-- With `timeout = T` no invocation starts at runtime ≥ T (runtime counted from the record's
     `started`, the first cycle) — over any history, restarts and downtime included. -/
-theorem timeout_bound (env : Env) (l : Limits) (T : Int) (hT : l.timeout = some T) (steps : List Step) :
+theorem timeout_bound_partial (env : Env) (l : Limits) (T : Int) (hT : l.timeout = some T) (steps : List Step) :
     ∀ (now : Int) (r : Rec) (a : Attempt), a ∈ invocations (run env l now r steps) → a.time - r.started < T := by
   induction steps with
   | nil => intro now r a h; simp [run, invocations, attempts] at h
@@ -355,7 +361,7 @@ def Step.plain : Step → Prop
     PARTIAL: the full statement (for all steps) is false — see `timeout_sleep_past_witness`: the
     look-ahead is computed when the call ends, `delayed` when the batch is merged (`lag`), and
     `HandlerChildrenRetry` has no look-ahead at all; then the failure is recorded at the first
-    cycle after `delayed`, later than T. No attempt starts later than T in any case (`timeout_bound`). -/
+    cycle after `delayed`, later than T. No attempt starts later than T in any case (`timeout_bound_partial`). -/
 theorem timeout_failed_for_good_partial (env : Env) (l : Limits) (T : Int) (hT : l.timeout = some T)
     (steps : List Step) (hplain : ∀ s ∈ steps, s.plain) :
     ∀ (now : Int) (r : Rec), (r.finished = true ∨ ∀ D, r.delayed = some D → D < r.started + T) →
@@ -453,10 +459,122 @@ theorem timeout_sleep_past_witness :
     [.cycle 0 0 (.childrenRetry (some 100)) 0 0, .cycle 50 0 .ok 0 0], 50, rfl, ?_, by decide⟩
   decide
 
-/-! ## Operator restarts (change handlers, sub-handlers: the record lives on the object) -/
+/-! ## The unrestricted environment: stale views, lost patches, kills in the middle of a cycle -/
 
-/-- What a restart keeps: the stored record read back is the record (whenever it is read). -/
-theorem restart_roundtrip (r : Rec) (now : Int) : fromStorage (toStorage r) now = r := roundtrip r now
+/-- `run` is exactly the environment fold in which nothing is stale and nothing is lost. -/
+theorem run_is_continuous_env (env : Env) (l : Limits) (steps : List Step) :
+    ∀ (now : Int) (r : Rec) (h : List Rec),
+      runEnv env l now (r :: h) (steps.map Step.lift) = run env l now r steps := by
+  induction steps with
+  | nil => intro now r h; rfl
+  | cons s rest ih =>
+    intro now r h
+    cases s with
+    | restart dn =>
+      rw [run_restart]
+      simp only [List.map_cons, Step.lift, runEnv_restart]
+      rw [ih]
+    | cycle dt wait x dur lag =>
+      simp only [List.map_cons, Step.lift]
+      cases hg : r.awakened (now + dt) with
+      | true =>
+        rw [run_cycle_awake _ _ _ _ _ _ _ _ _ _ hg,
+          runEnv_cycle_awake _ _ _ _ _ _ _ _ _ _ _ _ (by rw [viewOf_zero]; exact hg)]
+        simp only [viewOf_zero, if_true]
+        rw [ih]
+      | false =>
+        rw [run_cycle_idle _ _ _ _ _ _ _ _ _ _ hg,
+          runEnv_cycle_idle _ _ _ _ _ _ _ _ _ _ _ _ (by rw [viewOf_zero]; exact hg)]
+        simp only [viewOf_zero]
+        rw [ih]
+
+/-- What holds whatever the environment does (any stored versions, any stale view, any lost patch,
+    kills and restarts anywhere): every invocation is within the limits OF THE RECORD VERSION IT WAS
+    SHOWN — its retry number is below `N`, and it starts less than `T` after that record's `started`. -/
+theorem env_invocation_within_seen_limits (env : Env) (l : Limits) (steps : List EStep) :
+    ∀ (now : Int) (hist : List Rec) (a : Attempt), a ∈ invocations (runEnv env l now hist steps) →
+      (∀ N, l.retries = some N → a.retry < N) ∧ (∀ T, l.timeout = some T → a.time - a.recAfter.started < T) := by
+  induction steps with
+  | nil => intro now hist a h; simp [runEnv, invocations, attempts] at h
+  | cons s rest ih =>
+    intro now hist a h
+    cases s with
+    | restart dn => rw [runEnv_restart] at h; exact ih _ _ a h
+    | cycle view stored dt wait x dur lag =>
+      cases hg : (viewOf hist view (now + dt)).awakened (now + dt) with
+      | false => rw [runEnv_cycle_idle _ _ _ _ _ _ _ _ _ _ _ _ hg] at h; exact ih _ _ a h
+      | true =>
+        rw [runEnv_cycle_awake _ _ _ _ _ _ _ _ _ _ _ _ hg] at h
+        simp only [invocations, attempts_cons_att, List.filter_cons] at h
+        split at h
+        · rename_i hi
+          rcases List.mem_cons.1 h with rfl | h'
+          · simp only [attemptAt_out] at hi
+            have hp := (classify_invoked_iff env l _ _ dur x).1 hi
+            obtain ⟨h1, h2⟩ := (precheck_none_iff l _ _).1 hp
+            refine ⟨fun N hN => retriesOut_false_of l _ N hN h2, fun T hT => ?_⟩
+            have := timedOut_false_of l _ T hT h1
+            simpa [Rec.runtime] using this
+          · exact ih _ _ a h'
+        · exact ih _ _ a h
+
+/-- … and the gate is respected on the shown version: an attempt happens only on a version that is
+    unfinished and whose `delayed` has passed; a cycle shown a finished or sleeping version does nothing. -/
+theorem env_gate_respected (env : Env) (l : Limits) (now : Int) (hist : List Rec) (view : Nat) (stored : Bool)
+    (dt wait : Nat) (x : Raised) (dur lag : Nat) (rest : List EStep) :
+    ((∃ a, (runEnv env l now hist (.cycle view stored dt wait x dur lag :: rest)).head? = some (.att a)) ↔
+      ((viewOf hist view (now + dt)).finished = false ∧
+        ∀ D, (viewOf hist view (now + dt)).delayed = some D → D ≤ now + dt)) := by
+  cases hg : (viewOf hist view (now + dt)).awakened (now + dt) with
+  | true =>
+    rw [runEnv_cycle_awake _ _ _ _ _ _ _ _ _ _ _ _ hg]
+    exact ⟨fun _ => ⟨awakened_not_finished hg, fun D hD => awakened_delayed_le hg hD⟩, fun _ => ⟨_, rfl⟩⟩
+  | false =>
+    rw [runEnv_cycle_idle _ _ _ _ _ _ _ _ _ _ _ _ hg]
+    constructor
+    · rintro ⟨a, ha⟩; simp at ha
+    · rintro ⟨hf, hd⟩
+      rw [awakened_of hf hd] at hg; cases hg
+
+/-- NEGATION of the unguarded `retries_bound`: `retries = 1`, the operator is killed after the handler
+    call and before the patch (`stored = false`, then a restart): the restarted operator invokes the
+    handler again with the same retry number 0 — two invocations. -/
+theorem kill_mid_exceeds_retries_witness :
+    ∃ (env : Env) (l : Limits) (steps : List EStep), l.retries = some 1 ∧
+      ((invocations (runEnv env l 0 [] steps)).map (fun a => (a.time, a.retry))) = [(0, 0), (5, 0)] :=
+  ⟨⟨.temporary, 60⟩, ⟨none, none, some 1, none⟩,
+    [.cycle 0 false 0 0 .arbitrary 0 0, .restart 5, .cycle 0 true 0 0 .arbitrary 0 0], rfl, by decide⟩
+
+/-- NEGATION of the unguarded `delay_respected`: the handler asked for 100; the next event carries a
+    stale body (the version before the write): it is invoked again at once, 1 tick later. -/
+theorem stale_view_breaks_delay_witness :
+    ∃ (env : Env) (l : Limits) (steps : List EStep) (a b : Attempt),
+      attempts (runEnv env l 0 [] steps) = [a, b] ∧ a.out.delay = some 100 ∧ a.out.final = false ∧
+      b.time = a.merged + 1 ∧ ¬ After a b := by
+  refine ⟨⟨.temporary, 60⟩, ⟨none, none, none, none⟩,
+    [.cycle 0 true 0 0 (.temporary (some 100)) 0 0, .cycle 1 true 1 0 .ok 0 0], _, _, rfl, by decide, by decide,
+    by decide, ?_⟩
+  intro h
+  have := h.2.1 100 (by decide)
+  revert this; decide
+
+/-- NEGATION of the unguarded `timeout_bound`: `timeout = 10`; the first cycle's patch is lost, so no
+    `started` was ever stored: 50 ticks later the handler starts from scratch and is invoked again. -/
+theorem lost_patch_exceeds_timeout_witness :
+    ∃ (env : Env) (l : Limits) (steps : List EStep), l.timeout = some 10 ∧
+      ((invocations (runEnv env l 0 [] steps)).map (fun a => a.time)) = [0, 50] :=
+  ⟨⟨.temporary, 60⟩, ⟨none, some 10, none, none⟩,
+    [.cycle 0 false 0 0 (.temporary (some 5)) 0 0, .cycle 0 true 50 0 .ok 0 0], rfl, by decide⟩
+
+/-- NEGATION of the unguarded `finished_never_runs`: a handler that succeeded is run again when the
+    next event still carries the body from before the write. -/
+theorem stale_view_reruns_finished_witness :
+    ∃ (env : Env) (l : Limits) (steps : List EStep),
+      ((attempts (runEnv env l 0 [] steps)).map (fun a => (a.retry, a.out.invoked, a.recAfter.success))) =
+        [(0, true, true), (0, true, true)] :=
+  ⟨⟨.temporary, 60⟩, ⟨none, none, none, none⟩, [.cycle 0 true 0 0 .ok 0 0, .cycle 1 true 3 0 .ok 0 0], by decide⟩
+
+/-! ## Operator restarts between cycles (change handlers, sub-handlers: the record lives on the object) -/
 
 theorem squashFrom_spec (env : Env) (l : Limits) (steps : List Step) :
     ∀ (now : Int) (acc : Nat) (r : Rec),
@@ -541,151 +659,177 @@ theorem loop_retries_bound (env : Env) (l : Limits) (N : Int) (hN : l.retries = 
     (script : List (Raised × Nat)) :
     ((loopRun env l now (fromScratch now) script).filter (fun a => a.out.invoked)).length ≤ N.toNat := by
   rw [← loop_is_run]
-  exact retries_bound_scratch env l N hN now now _
+  exact retries_bound_scratch_partial env l N hN now now _
 
 theorem loop_timeout_bound (env : Env) (l : Limits) (T : Int) (hT : l.timeout = some T) (now : Int)
     (script : List (Raised × Nat)) (a : Attempt)
     (ha : a ∈ loopRun env l now (fromScratch now) script) (hi : a.out.invoked = true) : a.time - now < T := by
   rw [← loop_is_run] at ha
-  have := timeout_bound env l T hT (loopSteps env l now (fromScratch now) script) now (fromScratch now) a
+  have := timeout_bound_partial env l T hT (loopSteps env l now (fromScratch now) script) now (fromScratch now) a
     (List.mem_filter.2 ⟨ha, hi⟩)
   simpa [fromScratch] using this
 
 theorem loop_delay_respected (env : Env) (l : Limits) (now : Int) (r : Rec) (script : List (Raised × Nat)) :
     (loopRun env l now r script).Pairwise After := by
   rw [← loop_is_run]
-  exact delay_respected env l _ now r
+  exact delay_respected_partial env l _ now r
 
 /-! ## Timers: the whole life of one timer (after the repair of finding C11-F1, commit af4d77a)
 
-  One retry series of `_timer` is `loopRun` (so `loop_retries_bound`, `loop_timeout_bound`,
-  `loop_delay_respected`, `final_is_last` hold per series); a new series starts only after a
-  success; a series that failed for good is the last thing the timer ever invokes. -/
+  `timerRun` has one script element per iteration of `_timer`'s loop and evaluates the same gate as
+  every other driver (`awakened`); nothing about a failed timer is built into its definition: that a
+  failed series is never executed again is DERIVED (`timer_failed_never_runs`) from the kept record
+  (`timerReset` resets only after a success) and the gate. -/
 
 def invokedOf (as : List Attempt) : List Attempt := as.filter (fun a => a.out.invoked)
 
-/-- A timer whose record is a failure for good never invokes (or even executes) anything again. -/
-theorem timer_failed_never_runs (env : Env) (l : Limits) (interval : Nat) (sharp : Bool) (now : Int) (r : Rec)
-    (script : List (Raised × Nat)) (h : r.failure = true) : timerRun env l interval sharp now r script = [] := by
-  cases script with
-  | nil => rfl
-  | cons s rest => obtain ⟨x, dur⟩ := s; simp [timerRun, h]
+/-- `b` comes after `a` in a timer's life (possibly in a later series): not before `a` was merged,
+    and not before the delay `a` asked for has passed. -/
+def Spaced (a b : Attempt) : Prop :=
+  a.merged ≤ b.time ∧ ∀ d, a.out.delay = some d → a.merged + d ≤ b.time
+
+/-- A timer whose record is a failure for good never executes anything again: every further
+    iteration of its loop finds nothing awakened. -/
+theorem timer_failed_never_runs (env : Env) (l : Limits) (iv : Nat) (sh : Bool) (script : List (Raised × Nat)) :
+    ∀ (now : Int) (r : Rec), r.failure = true → attempts (timerRun env l iv sh now r script) = [] := by
+  induction script with
+  | nil => intro now r _; rfl
+  | cons s rest ih =>
+    intro now r h
+    obtain ⟨x, dur⟩ := s
+    have hr : timerReset r now = r := timerReset_failure h now
+    rcases timerRun_step env l iv sh now r x dur rest with ⟨hg, _⟩ | ⟨_, he⟩
+    · rw [hr, not_awakened_of_finished (finished_of_failure h)] at hg; cases hg
+    · rw [he, attempts_cons_idle, hr]; exact ih _ _ h
 
 /-- After a final failure (PermanentError, permanent-mode error, retries or timeout exhausted) there is
     no further attempt in the timer's life: an attempt that is followed by another one did not fail. -/
-theorem timer_failure_is_last (env : Env) (l : Limits) (interval : Nat) (sharp : Bool)
-    (script : List (Raised × Nat)) :
+theorem timer_failure_is_last (env : Env) (l : Limits) (iv : Nat) (sh : Bool) (script : List (Raised × Nat)) :
     ∀ (now : Int) (r : Rec),
-      (timerRun env l interval sharp now r script).Pairwise (fun a _ => a.recAfter.failure = false) := by
+      (attempts (timerRun env l iv sh now r script)).Pairwise (fun a _ => a.recAfter.failure = false) := by
   induction script with
   | nil => intro now r; exact List.Pairwise.nil
   | cons s rest ih =>
     intro now r
     obtain ⟨x, dur⟩ := s
-    cases hf : r.failure with
-    | true => simp [timerRun, hf]
-    | false =>
-      simp only [timerRun, hf, Bool.false_eq_true, if_false]
+    rcases timerRun_step env l iv sh now r x dur rest with ⟨_, he⟩ | ⟨_, he⟩
+    · rw [he, attempts_cons_att]
       refine List.Pairwise.cons ?_ (ih _ _)
       intro b hb
-      cases hfa : (attemptAt env l now (if r.finished = true then fromScratch now else r) x dur 0).recAfter.failure with
+      cases hfa : (attemptAt env l now (timerReset r now) x dur 0).recAfter.failure with
       | false => rfl
       | true => rw [timer_failed_never_runs _ _ _ _ _ _ _ hfa] at hb; cases hb
+    · rw [he, attempts_cons_idle]; exact ih _ _
+
+/-- The head attempt of a timer's remaining life continues the running series (same retry number as
+    the record) or, after a success, starts a new one with retry 0; after a failure there is none. -/
+theorem timer_head_retry (env : Env) (l : Limits) (iv : Nat) (sh : Bool) (script : List (Raised × Nat)) :
+    ∀ (now : Int) (r : Rec) (b : Attempt), (attempts (timerRun env l iv sh now r script)).head? = some b →
+      (r.finished = false ∧ b.retry = r.retries) ∨ (r.finished = true ∧ r.failure = false ∧ b.retry = 0) := by
+  induction script with
+  | nil => intro now r b h; simp [timerRun, attempts] at h
+  | cons s rest ih =>
+    intro now r b h
+    obtain ⟨x, dur⟩ := s
+    rcases timerRun_step env l iv sh now r x dur rest with ⟨hg, he⟩ | ⟨hg, he⟩
+    · rw [he, attempts_cons_att] at h
+      simp only [List.head?_cons, Option.some.injEq] at h
+      subst h
+      simp only [attemptAt_retry]
+      cases hf : r.finished with
+      | false => left; rw [timerReset_unfinished hf]; exact ⟨rfl, rfl⟩
+      | true =>
+        cases hn : r.failure with
+        | true => rw [timerReset_failure hn, not_awakened_of_finished hf] at hg; cases hg
+        | false => right; rw [timerReset_success hf hn]; exact ⟨rfl, rfl, rfl⟩
+    · rw [he, attempts_cons_idle, timerReset_idle hg] at h
+      exact ih _ _ b h
 
 /-- `retries = N`, per series: every invocation in a timer's life has a retry number below `N`… -/
-theorem timer_retry_lt (env : Env) (l : Limits) (N : Int) (hN : l.retries = some N) (interval : Nat) (sharp : Bool)
+theorem timer_retry_lt (env : Env) (l : Limits) (N : Int) (hN : l.retries = some N) (iv : Nat) (sh : Bool)
     (script : List (Raised × Nat)) :
-    ∀ (now : Int) (r : Rec) (a : Attempt), a ∈ timerRun env l interval sharp now r script →
+    ∀ (now : Int) (r : Rec) (a : Attempt), a ∈ attempts (timerRun env l iv sh now r script) →
       a.out.invoked = true → a.retry < N := by
   induction script with
   | nil => intro now r a h; cases h
   | cons s rest ih =>
     intro now r a h hi
     obtain ⟨x, dur⟩ := s
-    cases hf : r.failure with
-    | true => simp [timerRun, hf] at h
-    | false =>
-      simp only [timerRun, hf, Bool.false_eq_true, if_false] at h
+    rcases timerRun_step env l iv sh now r x dur rest with ⟨_, he⟩ | ⟨_, he⟩
+    · rw [he, attempts_cons_att] at h
       rcases List.mem_cons.1 h with rfl | h'
       · simp only [attemptAt_out] at hi
         have hp := (classify_invoked_iff env l _ _ dur x).1 hi
         exact retriesOut_false_of l _ N hN ((precheck_none_iff l _ _).1 hp).2
       · exact ih _ _ a h' hi
+    · rw [he, attempts_cons_idle] at h; exact ih _ _ a h hi
 
 /-- … and the retry numbers count up by one inside a series; a new series (retry 0 again) starts
     only right after a success. Hence at most `N` invocations per series, and with
     `timer_failure_is_last` a failed series is the last one. -/
-theorem timer_retry_steps (env : Env) (l : Limits) (interval : Nat) (sharp : Bool) (script : List (Raised × Nat)) :
+theorem timer_retry_steps (env : Env) (l : Limits) (iv : Nat) (sh : Bool) (script : List (Raised × Nat)) :
     ∀ (now : Int) (r : Rec) (n : Nat) (a b : Attempt),
-      (timerRun env l interval sharp now r script)[n]? = some a →
-      (timerRun env l interval sharp now r script)[n + 1]? = some b →
+      (attempts (timerRun env l iv sh now r script))[n]? = some a →
+      (attempts (timerRun env l iv sh now r script))[n + 1]? = some b →
       (b.retry = a.retry + 1 ∧ a.recAfter.finished = false) ∨ (b.retry = 0 ∧ a.recAfter.success = true) := by
   induction script with
-  | nil => intro now r n a b ha; simp [timerRun] at ha
+  | nil => intro now r n a b ha; simp [timerRun, attempts] at ha
   | cons s rest ih =>
     intro now r n a b ha hb
     obtain ⟨x, dur⟩ := s
-    cases hf : r.failure with
-    | true => simp [timerRun, hf] at ha
-    | false =>
-      simp only [timerRun, hf, Bool.false_eq_true, if_false] at ha hb
+    rcases timerRun_step env l iv sh now r x dur rest with ⟨_, he⟩ | ⟨_, he⟩
+    · rw [he, attempts_cons_att] at ha hb
       cases n with
       | succ m =>
         rw [List.getElem?_cons_succ] at ha hb
         exact ih _ _ m a b ha hb
       | zero =>
         rw [List.getElem?_cons_zero] at ha
-        rw [List.getElem?_cons_succ] at hb
+        rw [List.getElem?_cons_succ, ← List.head?_eq_getElem?] at hb
         cases ha
-        -- b is the head of the continuation
-        cases rest with
-        | nil => simp [timerRun] at hb
-        | cons s' rest' =>
-          obtain ⟨x', dur'⟩ := s'
-          generalize hA : attemptAt env l now (if r.finished = true then fromScratch now else r) x dur 0 = A at hb ⊢
-          cases hfa : A.recAfter.failure with
-          | true => simp [timerRun, hfa] at hb
-          | false =>
-            simp only [timerRun, hfa, Bool.false_eq_true, if_false, List.getElem?_cons_zero,
-              Option.some.injEq] at hb
-            subst hb
-            simp only [attemptAt_retry]
-            cases hfin : A.recAfter.finished with
-            | false => left; simp [hfin, ← hA]
-            | true =>
-              right
-              have hs : A.recAfter.success = true := by
-                simp only [Rec.finished, hfa, Bool.or_false] at hfin; exact hfin
-              simp [fromScratch, hs]
+        rcases timer_head_retry env l iv sh rest _ _ b hb with ⟨hf, hr⟩ | ⟨hf, hn, hr⟩
+        · left; exact ⟨by rw [hr]; rfl, hf⟩
+        · right
+          refine ⟨hr, ?_⟩
+          simp only [Rec.finished, hn, Bool.or_false] at hf
+          exact hf
+    · rw [he, attempts_cons_idle] at ha hb
+      exact ih _ _ n a b ha hb
 
 /-- The count over the whole life: at most `N` invocations for the running series plus `N` for every
     success (each success opens one new series); a failure opens nothing. -/
 def budget (N : Int) (r : Rec) : Nat :=
   if r.failure then 0 else if r.success then N.toNat else (N - r.retries).toNat
 
-theorem timer_invocations_bound (env : Env) (l : Limits) (N : Int) (hN : l.retries = some N) (interval : Nat)
-    (sharp : Bool) (script : List (Raised × Nat)) :
+theorem timer_invocations_bound (env : Env) (l : Limits) (N : Int) (hN : l.retries = some N) (iv : Nat)
+    (sh : Bool) (script : List (Raised × Nat)) :
     ∀ (now : Int) (r : Rec),
-      (invokedOf (timerRun env l interval sharp now r script)).length ≤
-        budget N r + N.toNat * ((timerRun env l interval sharp now r script).filter
+      (invokedOf (attempts (timerRun env l iv sh now r script))).length ≤
+        budget N r + N.toNat * ((attempts (timerRun env l iv sh now r script)).filter
           (fun a => a.recAfter.success)).length := by
   induction script with
-  | nil => intro now r; simp [timerRun, invokedOf]
+  | nil => intro now r; simp [timerRun, attempts, invokedOf]
   | cons s rest ih =>
     intro now r
     obtain ⟨x, dur⟩ := s
-    cases hf : r.failure with
-    | true => simp [timerRun, hf, invokedOf]
-    | false =>
-      simp only [timerRun, hf, Bool.false_eq_true, if_false]
-      generalize hr0 : (if r.finished = true then fromScratch now else r) = r0
+    rcases timerRun_step env l iv sh now r x dur rest with ⟨hg, he⟩ | ⟨hg, he⟩
+    · rw [he, attempts_cons_att]
+      generalize hr0 : timerReset r now = r0 at hg
       have hb0 : budget N r = (N - r0.retries).toNat := by
         subst hr0
-        cases hs : r.success with
-        | true => simp [budget, hf, hs, Rec.finished, fromScratch]
-        | false => simp [budget, hf, hs, Rec.finished]
+        cases hf : r.finished with
+        | false =>
+          rw [timerReset_unfinished hf]
+          simp [budget, failure_false_of_unfinished hf, success_false_of_unfinished hf]
+        | true =>
+          cases hn : r.failure with
+          | true => rw [timerReset_failure hn, not_awakened_of_finished hf] at hg; cases hg
+          | false =>
+            have hs : r.success = true := by simpa [Rec.finished, hn] using hf
+            rw [timerReset_success hf hn]
+            simp [budget, hn, hs, fromScratch]
       generalize hA : attemptAt env l now r0 x dur 0 = A
-      have ih' := ih (timerNext interval sharp A) A.recAfter
+      have ih' := ih (timerNext iv sh A) A.recAfter
       have hAr : A.recAfter.retries = r0.retries + 1 := by rw [← hA]; rfl
       have hAo : A.out = classify env l r0 now dur x := by rw [← hA]; rfl
       simp only [invokedOf, List.filter_cons] at ih' ⊢
@@ -697,7 +841,6 @@ theorem timer_invocations_bound (env : Env) (l : Limits) (N : Int) (hN : l.retri
         cases hfa : A.recAfter.failure with
         | true =>
           have hs : A.recAfter.success = false := by
-            have := (final_finished r0 (A.merged) A.out)
             rw [← hA] at hfa ⊢
             simp only [attemptAt, withOutcome] at hfa ⊢
             cases h1 : (classify env l r0 now dur x).final <;> cases h2 : ((classify env l r0 now dur x).exc == Exc.none) <;>
@@ -716,7 +859,6 @@ theorem timer_invocations_bound (env : Env) (l : Limits) (N : Int) (hN : l.retri
             simp only [Bool.false_eq_true, if_false]
             omega
       · rw [if_neg hi]
-        -- not invoked: a limit refused it, the record is a failure: nothing follows
         have hni : (classify env l r0 now dur x).invoked = false := by
           rw [← hAo]; simpa using hi
         have hfa : A.recAfter.failure = true := by
@@ -725,28 +867,345 @@ theorem timer_invocations_bound (env : Env) (l : Limits) (N : Int) (hN : l.retri
           rw [← hA]; exact ((limits_refuse env l r0 now dur x _).2 hni).2.2.2
         rw [timer_failed_never_runs _ _ _ _ _ _ _ hfa] at ih' ⊢
         simp [hsu]
+    · rw [he, attempts_cons_idle]
+      have := ih (timerIdleNext iv sh (timerReset r now) now) (timerReset r now)
+      rw [timerReset_idle hg] at this ⊢
+      exact this
 
-/-- As long as the record is not finished, the timer's next step is the in-memory loop's next step. -/
-theorem timer_series_is_loop (env : Env) (l : Limits) (interval : Nat) (sharp : Bool) (now : Int) (r : Rec)
-    (x : Raised) (dur : Nat) (rest : List (Raised × Nat)) (hf : r.finished = false) :
-    (timerRun env l interval sharp (wakeTime r now) r ((x, dur) :: rest)).head? =
-      (loopRun env l now r ((x, dur) :: rest)).head? := by
-  have hfl : r.failure = false := by
-    simp only [Rec.finished, Bool.or_eq_false_iff] at hf; exact hf.2
-  simp [timerRun, loopRun, hf, hfl]
+/-- ONE WHOLE SERIES of a timer is the in-memory loop: from an unfinished record, the timer's attempts
+    up to and including the first one that finishes the record are exactly `loopRun`'s (same times,
+    retry numbers, outcomes, records) — so everything proved for `loopRun` holds for every series. -/
+theorem timer_series_is_loop (env : Env) (l : Limits) (iv : Nat) (sh : Bool) (script : List (Raised × Nat)) :
+    ∀ (now : Int) (r : Rec), r.finished = false →
+      takeSeries (attempts (timerRun env l iv sh (wakeTime r now) r script)) = loopRun env l now r script := by
+  induction script with
+  | nil => intro now r _; rfl
+  | cons s rest ih =>
+    intro now r hf
+    obtain ⟨x, dur⟩ := s
+    have hr : timerReset r (wakeTime r now) = r := timerReset_unfinished hf _
+    rcases timerRun_step env l iv sh (wakeTime r now) r x dur rest with ⟨_, he⟩ | ⟨hg, _⟩
+    · rw [he, attempts_cons_att, hr]
+      simp only [takeSeries, loopRun, hf, Bool.false_eq_true, if_false]
+      cases hfa : (attemptAt env l (wakeTime r now) r x dur 0).recAfter.finished with
+      | true => simp [loopRun_finished _ _ _ _ _ hfa]
+      | false =>
+        simp only [Bool.false_eq_true, if_false, timerNext, hfa]
+        rw [ih _ _ hfa]
+    · rw [hr, awakened_wakeTime hf] at hg; cases hg
 
--- non-vacuity: a timer (interval 10) whose function raises PermanentError is executed once, for ever
-example : ((timerRun ⟨.temporary, 60⟩ ⟨none, none, none, none⟩ 10 false 0 (fromScratch 0)
-    [(.permanent, 0), (.permanent, 0)]).map (fun a => (a.time, a.retry, a.out.invoked, a.recAfter.failure))) =
-    [(0, 0, true, true)] := by decide
+/-- `timeout = T` over a timer's whole life: no invocation starts `T` or more after the start of its
+    own series (`recAfter.started` is the series' `started`: the record of a series is created by
+    `from_scratch` at its first iteration and keeps `started`). -/
+theorem timer_timeout_bound (env : Env) (l : Limits) (T : Int) (hT : l.timeout = some T) (iv : Nat) (sh : Bool)
+    (script : List (Raised × Nat)) :
+    ∀ (now : Int) (r : Rec) (a : Attempt), a ∈ attempts (timerRun env l iv sh now r script) →
+      a.out.invoked = true → a.time - a.recAfter.started < T := by
+  induction script with
+  | nil => intro now r a h; cases h
+  | cons s rest ih =>
+    intro now r a h hi
+    obtain ⟨x, dur⟩ := s
+    rcases timerRun_step env l iv sh now r x dur rest with ⟨_, he⟩ | ⟨_, he⟩
+    · rw [he, attempts_cons_att] at h
+      rcases List.mem_cons.1 h with rfl | h'
+      · simp only [attemptAt_out] at hi
+        have hp := (classify_invoked_iff env l _ _ dur x).1 hi
+        have := timedOut_false_of l _ T hT ((precheck_none_iff l _ _).1 hp).1
+        simpa [Rec.runtime] using this
+      · exact ih _ _ a h' hi
+    · rw [he, attempts_cons_idle] at h; exact ih _ _ a h hi
+
+theorem timerRun_lower (env : Env) (l : Limits) (iv : Nat) (sh : Bool) (script : List (Raised × Nat)) :
+    ∀ (now : Int) (r : Rec) (b : Attempt), b ∈ attempts (timerRun env l iv sh now r script) →
+      now ≤ b.time ∧ (r.finished = false → ∀ D, r.delayed = some D → D ≤ b.time) := by
+  induction script with
+  | nil => intro now r b h; cases h
+  | cons s rest ih =>
+    intro now r b h
+    obtain ⟨x, dur⟩ := s
+    rcases timerRun_step env l iv sh now r x dur rest with ⟨hg, he⟩ | ⟨hg, he⟩
+    · rw [he, attempts_cons_att] at h
+      rcases List.mem_cons.1 h with rfl | h'
+      · refine ⟨by simp, fun hf D hD => ?_⟩
+        rw [timerReset_unfinished hf] at hg
+        simpa using awakened_delayed_le hg hD
+      · have h1 := (ih _ _ b h').1
+        have h2 := timerNext_ge iv sh (attemptAt env l now (timerReset r now) x dur 0)
+        have h3 := attemptAt_merged_ge env l now (timerReset r now) x dur 0
+        refine ⟨by omega, fun hf D hD => ?_⟩
+        rw [timerReset_unfinished hf] at hg
+        have := awakened_delayed_le hg hD
+        omega
+    · rw [he, attempts_cons_idle, timerReset_idle hg] at h
+      obtain ⟨h1, h2⟩ := ih _ _ b h
+      have h3 := timerIdleNext_ge iv sh r now
+      exact ⟨by omega, h2⟩
+
+/-- "never sooner than the requested delay or backoff" over a timer's whole life: every later
+    attempt — of the same or of a later series — starts no earlier than the merge of an earlier
+    outcome plus the delay it asked for. -/
+theorem timer_delay_respected (env : Env) (l : Limits) (iv : Nat) (sh : Bool) (script : List (Raised × Nat)) :
+    ∀ (now : Int) (r : Rec), (attempts (timerRun env l iv sh now r script)).Pairwise Spaced := by
+  induction script with
+  | nil => intro now r; exact List.Pairwise.nil
+  | cons s rest ih =>
+    intro now r
+    obtain ⟨x, dur⟩ := s
+    rcases timerRun_step env l iv sh now r x dur rest with ⟨_, he⟩ | ⟨_, he⟩
+    · rw [he, attempts_cons_att]
+      refine List.Pairwise.cons ?_ (ih _ _)
+      intro b hb
+      obtain ⟨h1, h2⟩ := timerRun_lower env l iv sh rest _ _ b hb
+      have h3 := timerNext_ge iv sh (attemptAt env l now (timerReset r now) x dur 0)
+      refine ⟨by omega, fun d hd => ?_⟩
+      have hnf : (attemptAt env l now (timerReset r now) x dur 0).recAfter.finished = false := by
+        rw [attemptAt_finished, attemptAt_out]
+        exact classify_delay_not_final env l _ _ dur x d (by simpa using hd)
+      exact h2 hnf _ (attemptAt_delayed env l now _ x dur 0 d hd)
+    · rw [he, attempts_cons_idle]; exact ih _ _
+
+-- non-vacuity: a timer (interval 10) whose function raises PermanentError is executed once; the
+-- following iterations find nothing awakened (the record is kept, the loop sleeps its interval)
+example : timerRun ⟨.temporary, 60⟩ ⟨none, none, none, none⟩ 10 false 0 (fromScratch 0)
+    [(.permanent, 0), (.permanent, 0), (.ok, 0)] =
+    [.att (attemptAt ⟨.temporary, 60⟩ ⟨none, none, none, none⟩ 0 (fromScratch 0) .permanent 0 0),
+     .idle 10 true, .idle 20 true] := by decide
 -- with retries = 1 a failing timer is invoked once in its life; after successes it starts new series
-example : (invokedOf (timerRun ⟨.temporary, 60⟩ ⟨none, none, some 1, none⟩ 10 false 0 (fromScratch 0)
-    [(.arbitrary, 0), (.arbitrary, 0), (.arbitrary, 0)])).length = 1 := by decide
-example : ((timerRun ⟨.temporary, 60⟩ ⟨none, none, some 2, some 3⟩ 10 false 0 (fromScratch 0)
-    [(.ok, 0), (.arbitrary, 0), (.ok, 0), (.arbitrary, 0), (.arbitrary, 0), (.ok, 0)]).map
+example : (invokedOf (attempts (timerRun ⟨.temporary, 60⟩ ⟨none, none, some 1, none⟩ 10 false 0 (fromScratch 0)
+    [(.arbitrary, 0), (.arbitrary, 0), (.arbitrary, 0)]))).length = 1 := by decide
+example : ((attempts (timerRun ⟨.temporary, 60⟩ ⟨none, none, some 2, some 3⟩ 10 false 0 (fromScratch 0)
+    [(.ok, 0), (.arbitrary, 0), (.ok, 0), (.arbitrary, 0), (.arbitrary, 0), (.ok, 0)])).map
     (fun a => (a.time, a.retry, a.recAfter.success, a.recAfter.failure))) =
     [(0, 0, true, false), (10, 0, false, false), (13, 1, true, false), (23, 0, false, false), (26, 1, false, true)] := by
   decide
+-- one series of a sharp timer with a timeout: invoked inside T, refused at T, spacing by backoff
+example : ((attempts (timerRun ⟨.temporary, 60⟩ ⟨none, some 25, none, some 10⟩ 7 true 0 (fromScratch 0)
+    [(.arbitrary, 1), (.arbitrary, 1), (.arbitrary, 1), (.ok, 0)])).map (fun a => (a.time, a.out.invoked, a.out.exc))) =
+    [(0, true, .raised), (11, true, .raised), (22, true, .timeout)] := by decide
+
+/-! ## "is retried" and "is recorded as failed for good" as events (progress) -/
+
+/-- A due, unfinished handler within its limits IS invoked in the cycle: the head event of the run is
+    an invocation at its turn, with the stored count as retry number. -/
+theorem due_is_invoked (env : Env) (l : Limits) (now : Int) (r : Rec) (dt wait : Nat) (x : Raised) (dur lag : Nat)
+    (rest : List Step) (hf : r.finished = false) (hd : ∀ D, r.delayed = some D → D ≤ now + dt)
+    (hp : precheck l r (now + dt + wait) = none) :
+    ∃ a, (run env l now r (.cycle dt wait x dur lag :: rest)).head? = some (.att a) ∧
+      a.out.invoked = true ∧ a.time = now + dt + wait ∧ a.retry = r.retries := by
+  rw [run_cycle_awake _ _ _ _ _ _ _ _ _ _ (awakened_of hf hd)]
+  exact ⟨_, rfl, (classify_invoked_iff ..).2 hp, rfl, rfl⟩
+
+/-- "is retried": after an attempt whose outcome was not final, a cycle at or after the requested
+    delay, still within the limits, invokes the handler again, with the next retry number. -/
+theorem retried_as_event (env : Env) (l : Limits) (now : Int) (r : Rec) (x : Raised) (dur lag : Nat)
+    (dt' wait' : Nat) (x' : Raised) (dur' lag' : Nat) (rest : List Step)
+    (hnf : (attemptAt env l now r x dur lag).out.final = false)
+    (hd : ∀ d, (attemptAt env l now r x dur lag).out.delay = some d → d ≤ dt')
+    (hp : precheck l (attemptAt env l now r x dur lag).recAfter
+            ((attemptAt env l now r x dur lag).merged + dt' + wait') = none) :
+    ∃ b, (run env l (attemptAt env l now r x dur lag).merged (attemptAt env l now r x dur lag).recAfter
+            (.cycle dt' wait' x' dur' lag' :: rest)).head? = some (.att b) ∧
+      b.out.invoked = true ∧ b.retry = r.retries + 1 := by
+  have hfin : (attemptAt env l now r x dur lag).recAfter.finished = false := by
+    rw [attemptAt_finished]; exact hnf
+  obtain ⟨b, h1, h2, _, h4⟩ := due_is_invoked env l _ _ dt' wait' x' dur' lag' rest hfin
+    (by
+      intro D hD
+      cases hdl : (attemptAt env l now r x dur lag).out.delay with
+      | none =>
+        simp only [attemptAt, withOutcome_delayed] at hD hdl
+        rw [hdl] at hD; cases hD
+      | some d =>
+        rw [attemptAt_delayed env l now r x dur lag d hdl] at hD
+        cases hD
+        have := hd d hdl
+        omega) hp
+  exact ⟨b, h1, h2, by rw [h4]; rfl⟩
+
+/-- A raised kind that can never count as success. -/
+def Failing (env : Env) (l : Limits) (x : Raised) : Prop :=
+  x ≠ .ok ∧ ¬ (x = .arbitrary ∧ l.mode env = .ignored)
+
+theorem failing_never_succeeds (env : Env) (l : Limits) (r : Rec) (now : Int) (dur : Nat) (x : Raised)
+    (hx : Failing env l x) : (classify env l r now dur x).exc ≠ .none := by
+  cases hp : precheck l r now with
+  | some e =>
+    rw [classify_of_precheck_some hp]
+    rcases precheck_some_ne_none hp with rfl | rfl <;> simp
+  | none =>
+    rw [classify_of_precheck_none hp]
+    cases x with
+    | ok => exact absurd rfl hx.1
+    | permanent => simp [post, finalWith]
+    | childrenRetry d => simp [post, retryWith]
+    | temporary d =>
+      have := (post_temporary_verdict env l r (now + dur) d).2
+      rcases this with ⟨h, _⟩ | ⟨h, _⟩ | ⟨h, _⟩ <;> rw [h] <;> simp [retryWith, finalWith]
+    | arbitrary =>
+      cases hm : l.mode env with
+      | ignored => exact absurd ⟨rfl, hm⟩ hx.2
+      | permanent => simp [post, hm, finalWith]
+      | temporary =>
+        have := (post_arbitrary_verdict env l r (now + dur) hm).2
+        rcases this with ⟨h, _⟩ | ⟨h, _⟩ | ⟨h, _⟩ <;> rw [h] <;> simp [retryWith, finalWith]
+
+/-- "recorded as failed for good", `retries = N`: an in-memory loop (activity, daemon, timer series)
+    whose function keeps failing ENDS with a failure record within `N − stored + 1` executions. -/
+theorem loop_ends_failed_retries (env : Env) (l : Limits) (N : Int) (hN : l.retries = some N)
+    (script : List (Raised × Nat)) :
+    ∀ (now : Int) (r : Rec), r.finished = false → (∀ s ∈ script, Failing env l s.1) →
+      script.length ≥ (N - r.retries).toNat + 1 →
+      ∃ last, (loopRun env l now r script).getLast? = some last ∧ last.recAfter.failure = true ∧
+        last.recAfter.success = false := by
+  induction script with
+  | nil => intro now r _ _ hlen; simp at hlen
+  | cons s rest ih =>
+    intro now r hf hx hlen
+    obtain ⟨x, dur⟩ := s
+    simp only [loopRun, hf, Bool.false_eq_true, if_false]
+    generalize hA : attemptAt env l (wakeTime r now) r x dur 0 = A
+    have hAo : A.out = classify env l r (wakeTime r now) dur x := by rw [← hA]; rfl
+    have hexc : A.out.exc ≠ .none := by
+      rw [hAo]; exact failing_never_succeeds env l r _ dur x (hx (x, dur) List.mem_cons_self)
+    have hff := final_finished r A.merged A.out
+    have hrec : A.recAfter = withOutcome r A.merged A.out := by rw [← hA]; rfl
+    cases hfin : A.out.final with
+    | true =>
+      have hfa : A.recAfter.failure = true := by rw [hrec]; exact hff.2.2.2 ⟨hfin, hexc⟩
+      have hsu : A.recAfter.success = false := by
+        rw [hrec]
+        cases hs : (withOutcome r A.merged A.out).success with
+        | false => rfl
+        | true => exact absurd (hff.2.1.1 hs).2 hexc
+      rw [loopRun_finished _ _ _ _ _ (finished_of_failure hfa)]
+      exact ⟨A, rfl, hfa, hsu⟩
+    | false =>
+      -- not final ⇒ it was invoked ⇒ the stored count was below N
+      have hinv : A.out.invoked = true := by
+        cases hi : A.out.invoked with
+        | true => rfl
+        | false =>
+          rw [hAo] at hi
+          have := ((limits_refuse env l r (wakeTime r now) dur x 0).2 hi).1
+          rw [← hAo, hfin] at this; cases this
+      have hp := (classify_invoked_iff env l r _ dur x).1 (hAo ▸ hinv)
+      have hlt := retriesOut_false_of l _ N hN ((precheck_none_iff l r _).1 hp).2
+      have hnf : A.recAfter.finished = false := by rw [hrec, hff.1]; exact hfin
+      have hret : A.recAfter.retries = r.retries + 1 := by rw [← hA]; rfl
+      obtain ⟨last, h1, h2, h3⟩ := ih A.merged A.recAfter hnf
+        (fun s hs => hx s (List.mem_cons_of_mem _ hs))
+        (by rw [hret]; simp only [List.length_cons] at hlen; omega)
+      refine ⟨last, ?_, h2, h3⟩
+      rw [List.getLast?_cons, h1]; rfl
+
+/-- "recorded as failed for good", `timeout = T`: if every call takes at least one tick, a loop whose
+    function keeps failing ends with a failure record within `T − runtime + 1` executions. -/
+theorem loop_ends_failed_timeout (env : Env) (l : Limits) (T : Int) (hT : l.timeout = some T)
+    (script : List (Raised × Nat)) :
+    ∀ (now : Int) (r : Rec), r.finished = false → (∀ s ∈ script, Failing env l s.1 ∧ 1 ≤ s.2) →
+      script.length ≥ (T - (now - r.started)).toNat + 1 →
+      ∃ last, (loopRun env l now r script).getLast? = some last ∧ last.recAfter.failure = true ∧
+        last.recAfter.success = false := by
+  induction script with
+  | nil => intro now r _ _ hlen; simp at hlen
+  | cons s rest ih =>
+    intro now r hf hx hlen
+    obtain ⟨x, dur⟩ := s
+    simp only [loopRun, hf, Bool.false_eq_true, if_false]
+    generalize hA : attemptAt env l (wakeTime r now) r x dur 0 = A
+    have hAo : A.out = classify env l r (wakeTime r now) dur x := by rw [← hA]; rfl
+    have hexc : A.out.exc ≠ .none := by
+      rw [hAo]; exact failing_never_succeeds env l r _ dur x (hx (x, dur) List.mem_cons_self).1
+    have hff := final_finished r A.merged A.out
+    have hrec : A.recAfter = withOutcome r A.merged A.out := by rw [← hA]; rfl
+    cases hfin : A.out.final with
+    | true =>
+      have hfa : A.recAfter.failure = true := by rw [hrec]; exact hff.2.2.2 ⟨hfin, hexc⟩
+      have hsu : A.recAfter.success = false := by
+        rw [hrec]
+        cases hs : (withOutcome r A.merged A.out).success with
+        | false => rfl
+        | true => exact absurd (hff.2.1.1 hs).2 hexc
+      rw [loopRun_finished _ _ _ _ _ (finished_of_failure hfa)]
+      exact ⟨A, rfl, hfa, hsu⟩
+    | false =>
+      have hinv : A.out.invoked = true := by
+        cases hi : A.out.invoked with
+        | true => rfl
+        | false =>
+          rw [hAo] at hi
+          have := ((limits_refuse env l r (wakeTime r now) dur x 0).2 hi).1
+          rw [← hAo, hfin] at this; cases this
+      have hp := (classify_invoked_iff env l r _ dur x).1 (hAo ▸ hinv)
+      have hlt := timedOut_false_of l _ T hT ((precheck_none_iff l r _).1 hp).1
+      simp only [Rec.runtime] at hlt
+      have hnf : A.recAfter.finished = false := by rw [hrec, hff.1]; exact hfin
+      have hst : A.recAfter.started = r.started := by rw [← hA]; rfl
+      have hw := wakeTime_ge r now
+      have hdur := (hx (x, dur) List.mem_cons_self).2
+      have hci : (classify env l r (wakeTime r now) dur x).invoked = true := by rw [← hAo]; exact hinv
+      have hm : A.merged = wakeTime r now + dur := by
+        rw [← hA]; simp only [attemptAt, endTime_invoked hci]; omega
+      obtain ⟨last, h1, h2, h3⟩ := ih A.merged A.recAfter hnf
+        (fun s hs => hx s (List.mem_cons_of_mem _ hs))
+        (by rw [hst, hm]; simp only [List.length_cons] at hlen; simp only at hdur; omega)
+      refine ⟨last, ?_, h2, h3⟩
+      rw [List.getLast?_cons, h1]; rfl
+
+/-! ## Sub-handlers: the delay a parent asks for is its children's -/
+
+/-- What `kopf.execute()` makes of the sub-handlers' records after their batch: the parent's function
+    returns iff every sub-handler is finished; otherwise it is retried (`children_retry`: no look-ahead)
+    with a delay that is the SMALLEST remaining delay of the unfinished children: no child is due before
+    it, and at least one child is awake when it has passed (so the parent's retry is not idle). A
+    sub-handler's own history is a `run`: its cycles are its parent's invocations (any `steps`), its
+    record is read from the stored body, so every `run` theorem above is about sub-handlers too. -/
+theorem children_delay_is_earliest (subs : List Rec) (now : Int) :
+    (childrenRaised subs now = .ok ↔ ∀ r ∈ subs, r.finished = true) ∧
+    (∀ x, childrenRaised subs now = x → x ≠ .ok → ∃ d, x = .childrenRetry (some d) ∧ 0 ≤ d ∧
+      (∀ r ∈ subs, r.finished = false → d ≤ remaining r now) ∧
+      (∃ r ∈ subs, r.finished = false ∧ remaining r now = d ∧ r.awakened (now + d) = true)) := by
+  unfold childrenRaised
+  cases hm : minList ((subs.filter (fun r => !r.finished)).map (fun r => remaining r now)) with
+  | none =>
+    dsimp only
+    have hnil := (minList_none_iff _).1 hm
+    simp only [List.map_eq_nil_iff, List.filter_eq_nil_iff] at hnil
+    refine ⟨⟨fun _ r hr => (by simpa using hnil r hr), fun _ => rfl⟩, fun x hx hne => absurd hx.symm hne⟩
+  | some d =>
+    dsimp only
+    obtain ⟨hmem, hmin⟩ := minList_spec _ d hm
+    obtain ⟨r0, hr0, hd0⟩ := List.mem_map.1 hmem
+    obtain ⟨hr0s, hr0f⟩ := List.mem_filter.1 hr0
+    have hr0f' : r0.finished = false := by simpa using hr0f
+    have hrem_nonneg : ∀ r : Rec, 0 ≤ remaining r now := by
+      intro r; unfold remaining; split
+      · split <;> omega
+      · omega
+    refine ⟨⟨fun h => (by cases h), fun h => (by rw [h r0 hr0s] at hr0f'; cases hr0f')⟩, ?_⟩
+    intro x hx _
+    refine ⟨d, hx.symm, by rw [← hd0]; exact hrem_nonneg r0, ?_, ⟨r0, hr0s, hr0f', hd0, ?_⟩⟩
+    · intro r hr hf
+      exact hmin _ (List.mem_map.2 ⟨r, List.mem_filter.2 ⟨hr, by simpa using hf⟩, rfl⟩)
+    · apply awakened_of hr0f'
+      intro D hD
+      rw [← hd0]; simp only [remaining, hD]
+      split <;> omega
+
+/-- The other half of the guard of `timeout_failed_for_good_partial`, alone (no pending children): a
+    batch that merges 6 ticks after this handler's call ended (`lag = 6`; another handler of the same
+    cycle is still running): look-ahead at the call's end says 0 + 5 < 10, `delayed` becomes 6 + 5 = 11;
+    a cycle at runtime 10 = T finds the handler unfinished and not due. -/
+theorem timeout_sleep_past_lag_witness :
+    ∃ (env : Env) (l : Limits) (T : Int) (steps : List Step) (t : Int),
+      l.timeout = some T ∧ (∀ s ∈ steps, ∀ dt w x du lg, s = .cycle dt w x du lg → ∀ d, x ≠ .childrenRetry d) ∧
+      Ev.idle t false ∈ run env l 0 (fromScratch 0) steps ∧ t - 0 ≥ T := by
+  refine ⟨⟨.temporary, 60⟩, ⟨none, some 10, none, none⟩, 10,
+    [.cycle 0 0 (.temporary (some 5)) 0 6, .cycle 4 0 .ok 0 0], 10, rfl, ?_, by decide, by decide⟩
+  intro s hs dt w x du lg he d
+  simp only [List.mem_cons, List.mem_nil_iff, or_false] at hs
+  rcases hs with rfl | rfl <;> cases he <;> simp
 
 /-! ## Non-vacuity: the hypotheses are met, the branches are taken -/
 
@@ -777,7 +1236,7 @@ example : ((attempts (run envD ⟨none, none, some 3, some 1024⟩ 0 (fromScratc
 example : (invocations (run envD ⟨none, none, some 3, some 1024⟩ 0 (fromScratch 0) demoSteps)).length = 3 := by decide
 example : squash demoSteps = [.cycle 0 0 .arbitrary 0 0, .cycle 16 0 .ok 0 0, .cycle 1008 0 (.temporary (some 32)) 16 0,
    .cycle 32 0 .arbitrary 0 0, .cycle 5 0 .ok 0 0] := by decide
--- timeout_bound / timeout_refuses: an invocation inside T, a refusal at T
+-- timeout_bound_partial / timeout_refuses: an invocation inside T, a refusal at T
 example : ((attempts (run envD ⟨none, some 50, none, some 10⟩ 0 (fromScratch 0)
     [.cycle 0 0 .arbitrary 0 0, .cycle 10 0 .arbitrary 0 0, .cycle 40 0 .ok 0 0])).map
     (fun a => (a.time, a.out.invoked, a.out.exc))) = [(0, true, .raised), (10, true, .raised), (50, false, .timeout)] := by
@@ -791,5 +1250,35 @@ example : ∀ s ∈ demoSteps, s.plain := by
 example : ((loopRun envD ⟨none, none, none, some 1024⟩ 0 (fromScratch 0)
     [(.arbitrary, 0), (.temporary (some 16), 16), (.ok, 0)]).map (fun a => (a.time, a.retry, a.out.final))) =
     [(0, 0, false), (1024, 1, false), (1056, 2, true)] := by decide
+
+-- ignored mode, the verdict itself (hypotheses of `ignored_done`)
+example : precheck ⟨some .ignored, none, some 3, none⟩ (fromScratch 0) 5 = none ∧
+    classify envD ⟨some .ignored, none, some 3, none⟩ (fromScratch 0) 5 0 .arbitrary = finalWith .none := by decide
+-- `timeout_failed_for_good_partial` is not vacuous: plain steps, timeout = 50, and a cycle at runtime
+-- 60 ≥ T that finds the handler finished (it was failed for good at 50)
+def plainSteps : List Step :=
+  [.cycle 0 0 .arbitrary 0 0, .cycle 10 0 .arbitrary 0 0, .cycle 40 0 .ok 0 0, .cycle 10 0 .ok 0 0]
+example : (∀ s ∈ plainSteps, s.plain) ∧
+    Ev.idle 60 true ∈ run envD ⟨none, some 50, none, some 10⟩ 0 (fromScratch 0) plainSteps := by
+  refine ⟨?_, by decide⟩
+  intro s hs
+  simp only [plainSteps, List.mem_cons, List.mem_nil_iff, or_false] at hs
+  rcases hs with rfl | rfl | rfl | rfl <;> simp [Step.plain]
+-- `loop_ends_failed_retries`: retries = 2, three failing elements: the loop ends failed after 2 calls
+example : ((loopRun envD ⟨none, none, some 2, some 16⟩ 0 (fromScratch 0)
+    [(.arbitrary, 0), (.temporary (some 16), 0), (.arbitrary, 0)]).map
+    (fun a => (a.retry, a.out.invoked, a.recAfter.failure))) = [(0, true, false), (1, true, true)] := by decide
+-- `children_delay_is_earliest`: two pending children (due in 7 and in 3) and a finished one
+example : childrenRaised [⟨0, none, some 17, 1, false, false⟩, ⟨0, none, some 13, 2, false, false⟩,
+    ⟨0, some 5, none, 1, true, false⟩] 10 = .childrenRetry (some 3) := by decide
+example : childrenRaised [⟨0, some 5, none, 1, true, false⟩, ⟨0, some 6, none, 1, false, true⟩] 10 = .ok := by decide
+-- `retried_as_event` / `due_is_invoked`: the second cycle of `demoSteps` is too early (idle), the
+-- fourth is due and invoked with retry 1
+example : ((run envD ⟨none, none, some 3, some 1024⟩ 0 (fromScratch 0) demoSteps).map
+    (fun e => match e with | .att a => some (a.time, a.retry) | _ => none)) =
+    [some (0, 0), none, none, some (1024, 1), some (1072, 2), none] := by decide
+-- the environment fold with nothing stale and nothing lost is `run` (hypothesis of the `_partial`s)
+example : runEnv envD ⟨none, none, some 3, some 1024⟩ 0 [fromScratch 0] (demoSteps.map Step.lift) =
+    run envD ⟨none, none, some 3, some 1024⟩ 0 (fromScratch 0) demoSteps := by decide
 
 end Kopf.C11
